@@ -207,14 +207,24 @@ def _directed_semantics(chk, signed_time=False):
     signed_time (C10, user right-hand sides): the base system is evaluated at the signed time fwd*t.  For the autonomous
     systems of C03 the time argument is immaterial and either sign is accepted."""
     n = 4
-    for fwd, flip, expect in ((1, None, "+"), (-1, None, "-"), (-1, slice(0, n), "-"), (-1, slice(2, n), "partial")):
+    mod, cls = ri.find_def(BASE, "_DirectedSystem")
+    from ..kpe import ClassRef
+    dmod, dcls = ri.find_def(BASE, "_DynamicalSystem")
+
+    def build(fwd, flip):
+        """The wrapper as its own constructor builds it (attribute names are the class's business)."""
         g = UFunc("g", n)
-        base = SymObj(None, {"rhs": g, "dim": n}, "base")
-        mod, cls = ri.find_def(BASE, "_DirectedSystem")
-        from ..kpe import ClassRef
-        obj = SymObj(ClassRef(mod, cls), {"_base": base, "_fwd": fwd, "_flip_idx": flip, "_flip_idx_norm": flip,
-                                          "_rhs_cache": {}}, "directed")
+        base = SymObj(ClassRef(dmod, dcls), {"rhs": g, "dim": n, "_dim": n}, "base")
         ip = Interp()
+        ip.isinstance_hook = lambda v, c: (v is base) if (isinstance(c, ClassRef) and c.node.name == "_DynamicalSystem") else None
+        try:
+            obj = ip.instantiate(ClassRef(mod, cls), [base, fwd], {"flip_indices": flip})
+        except OutsideFragment as exc:
+            raise AnalysisError(f"_DirectedSystem.__init__ outside fragment: {exc}")
+        return ip, obj, g
+
+    for fwd, flip, expect in ((1, None, "+"), (-1, None, "-"), (-1, slice(0, n), "-"), (-1, slice(2, n), "partial"), (5, None, "+"), (-3, None, "-")):
+        ip, obj, g = build(fwd, flip)
         rhs = ip.apply(ip.getattr(obj, "_build_rhs_impl"), [], {})
         if not isinstance(rhs, FuncRef):
             raise AnalysisError("_DirectedSystem._build_rhs_impl did not return a function")
@@ -223,7 +233,8 @@ def _directed_semantics(chk, signed_time=False):
         got = to_obj_array(ip.apply(rhs, [t, y.copy()], {}))
         # a backward propagation over the unsigned time s = -t integrates dy/ds = -f(-s, y): for a time-dependent right-hand
         # side the base system has to be evaluated at the signed time
-        ref = to_obj_array(ip.apply_ufunc(g, [fwd * t, y]))
+        sgn = 1 if fwd >= 0 else -1
+        ref = to_obj_array(ip.apply_ufunc(g, [sgn * t, y]))
         if not signed_time:
             got = to_obj_array([S(v).subs(-t, t) if S(v).has(-t) else v for v in got])
             ref = to_obj_array(ip.apply_ufunc(g, [t, y]))
@@ -234,19 +245,29 @@ def _directed_semantics(chk, signed_time=False):
         else:
             ok = all(got[k] == ref[k] for k in range(2)) and all(sp.expand(got[k] + ref[k]) == 0 for k in range(2, n))
         chk.check(ok, "C03.c-wrapper", f"{BASE}::_DirectedSystem._build_rhs_impl[fwd={fwd},flip={flip}]",
-                  f"direction wrapper with fwd={fwd}, flip={flip} does not return the expected sign pattern: {list(got)}",
+                  f"direction wrapper constructed with fwd={fwd}, flip={flip} does not return the expected sign pattern ({expect}): {list(got)}",
                   sample=f"fwd={fwd}, flip={flip}: rhs = {list(got)}")
-    chk.count("functions partially evaluated", 4)
-    # the constructor normalises the direction to +-1 and stores the flip untouched
-    ip = Interp()
-    mod, cls = ri.find_def(BASE, "_DirectedSystem")
-    for fwd_in, want in ((1, 1), (-1, -1), (5, 1), (-3, -1)):
-        from ..kpe import ClassRef
-        obj = SymObj(ClassRef(mod, cls), {}, "d")
-        init = ri.class_member(mod, cls, "__init__")
-        ip.apply(FuncRef(init[0], init[2], bound_self=obj, qual="_DirectedSystem.__init__"), [7, fwd_in], {"flip_indices": None})
-        chk.check(obj.attrs.get("_fwd") == want and obj.attrs.get("_flip_idx_norm", 0) is None, "C03.c-wrapper",
-                  f"{BASE}::_DirectedSystem.__init__[fwd={fwd_in}]", f"direction {fwd_in} stored as {obj.attrs.get('_fwd')}")
+    chk.count("functions partially evaluated", 6)
+    # what the direction-aware integrators read off a system (getattr(system, <name>, 1): silent fallback to +1) is what the
+    # wrapper's constructor stores: every such literal name must be an attribute the constructor sets to the normalised direction
+    readers = 0
+    for modname in ("hiten.algorithms.integrators.symplectic", "hiten.algorithms.integrators.rk", "hiten.algorithms.integrators.base"):
+        m = ri.need_module(modname)
+        for q, fn in ri.functions_in(m):
+            for c in ast.walk(fn):
+                if isinstance(c, ast.Call) and isinstance(c.func, ast.Name) and c.func.id == "getattr" and len(c.args) == 3 and isinstance(c.args[1], ast.Constant) \
+                        and isinstance(c.args[1].value, str) and isinstance(c.args[0], ast.Name) and c.args[0].id in ("system", "dynsys"):
+                    name = c.args[1].value
+                    readers += 1
+                    vals = {}
+                    for fwd in (1, -1):
+                        _ip, obj, _g = build(fwd, None)
+                        vals[fwd] = obj.attrs.get(name)
+                    ok = vals[1] is not None and vals[-1] is not None and vals[1] != vals[-1]
+                    chk.check(ok, "C03.c-wrapper", f"{modname}::{q}[getattr(system, {name!r}, default)]",
+                              f"{q} reads the direction as getattr(system, {name!r}, {ast.unparse(c.args[2])}) but _DirectedSystem's constructor stores {vals} under that name: "
+                              f"the read falls back to the default and a backward system is integrated forward", sample=f"{q}: getattr(system, {name!r}) = +-1 as stored by _DirectedSystem.__init__")
+    chk.floor("direction attribute readers", readers, 1)
 
 
 def _direction_sites(chk):
@@ -358,3 +379,7 @@ def _wiring(chk):
     from . import c20
     from .common import Relabel
     c20._e_invalidation(Relabel(chk, {"C20.e": "C03.d-invalidation"}), c20._sites(), only_classes={"_OrbitDynamicsService"})
+    # the variational system an orbit integrates for its monodromy is the one built for its own system's mu (two model systems
+    # with equal body names in one interpreter: C01's wiring rule)
+    from . import c01
+    c01._system_wiring(Relabel(chk, {"C01.c": "C03.d-mu"}))
